@@ -429,8 +429,8 @@ def plan(tier):
         units.append(('lock', 4, 1, 1, 'cache', 'own', 'normal', 1))
         units.append(('rlock', 4, 1, 1, 'cache', 'own', 'normal', 1))
     for mode in ('own', 'shared'):
-        units.append(('rlock', 2, 1, 1, 'cache', mode, 'nested', None
-                      if tier == 'thorough' else 3))
+        units.append(('rlock', 2, 1, 1, 'cache', mode, 'nested', 3
+                      if tier == 'thorough' else 2))
         units.append(('rlock', 2, 1, 1, 'cache', mode, 'wrong-release', None))
         units.append(('semaphore', 2, 1, 1, 'cache', mode, 'wrong-release',
                       None))
